@@ -190,6 +190,10 @@ CHECKS = {
                   {"checks": 30000, "shards": 12, "timeout": 400},
                   {"checks": 400000, "shards": 16, "timeout": 2400},
                   ulimit_v=8388608),
+            {"name": "fuzz", "test": "FuzzReadCRL", "kind": "fuzz",
+             "thorough": {"fuzztime": "300s", "shards": 1, "timeout": 600}},
+            {"name": "fuzzaki", "test": "FuzzAKI", "kind": "fuzz",
+             "thorough": {"fuzztime": "120s", "shards": 1, "timeout": 400}},
         ],
     },
     "C06": {
